@@ -17,6 +17,7 @@ import Sqfs.Proofs.EncXattrRef
 import Sqfs.Proofs.EncXattrLoc
 import Sqfs.Proofs.EncXattrE2E
 import Sqfs.Proofs.EncTree
+import Sqfs.Proofs.EncTreeAll4
 import Sqfs.Proofs.PackContent2
 namespace Sqfs.C01
 open Sqfs.Enc Sqfs.Consts
@@ -500,30 +501,16 @@ example : IdsRepresentable [0, 1000, 0, 1000, 4294967295] := by
 
 /-! ## the tree -/
 
-/-
-Full statement (kept visible; `Sqfs.Enc.serializeTree` = `sqfs_serialize_fstree` after `fstree_post_process`,
-`Sqfs.Enc.readTree` = a walk with the library's readers from the root reference, `normalise` = the tree as a reader
-must see it: hard links as further names of their target's inode):
-
-  theorem parse_serialize (t : FsTree.Result) (x : TreeExtra) (out : TreeOut) :
-      Representable t x → serializeTree t x = .ok out → readTree out = .ok (normalise t x)
-
-What is proved is the per-node step and its composition with the round trips above; the induction over the whole inode
-list is not (see `parse_serialize_partial`).
--/
-
-/-- **Tree level, partial**: every step of `sqfs_serialize_fstree` reads back.  For any writer state `st` (streams and
-id table so far) and any node `n` within its C types (`NodeInOk`) that the serializer accepts: the inode stream grows by exactly `encInode` of a
-well-formed inode; that inode is read back by `decInode` from the reference the node was given (`rawRef` of the
+/-- **One step of `sqfs_serialize_fstree` reads back.**  For any writer state `st` (streams and id table so far) and
+any node `n` within its C types (`NodeInOk`) that the serializer accepts: the inode stream grows by exactly `encInode`
+of a well-formed inode; that inode is read back by `decInode` from the reference the node was given (`rawRef` of the
 position it was written at), from the finished stream or any extension of it; its reader-visible attributes are the
-node's (mode, time stamp, inode number, link count, xattr index; uid/gid through the id table indices); and for a
-directory the listing appended to the directory stream reads back, from the position stored in the inode and with the
-size stored in the inode, as the entries `(name, inode number, type, reference)` of its children in order.
-**Missing for the full statement**: the induction over `fs->inodes` showing that the reference stored in each
-directory entry is the position at which that child's inode was written (children and hard-link targets are written
-before the directories naming them: C03 `children_before_parent`, `reorder_hard_links`), and hence that the walk from
-the root reaches exactly `normalise t`.  The tree-level unit correspondence (`tree` op: real `fstree_post_process` +
-`sqfs_serialize_fstree` vs `serializeTree`, and the real readers on the result) exercises the composition. -/
+node's (mode, time stamp, inode number, link count, xattr index); **owner ids through the id table**: the inode's
+whole view is the node's attributes on top of the payload of `preInode` with two indices `ui`, `gi`, and the id table
+afterwards holds the node's uid at `ui` and its gid at `gi` (and is an extension of the table before, so this stays
+true to the end); and for a directory the listing appended to the directory stream reads back, from the position
+stored in the inode and with the size stored in the inode, as the entries `(name, inode number, type, reference)` of
+its children in order.  The composition over the whole inode list is `parse_serialize`. -/
 theorem parse_serialize_partial (bs : Nat) (st st' : TreeSt) (n : NodeIn) (later : Bytes)
     (hn : NodeInOk bs st n) (h : serializeNode st n = .ok st') :
     ∃ i, WfInode bs i ∧ st'.inodes = st.inodes ++ encInode i
@@ -533,16 +520,28 @@ theorem parse_serialize_partial (bs : Nat) (st st' : TreeSt) (n : NodeIn) (later
       ∧ (1 ≤ n.attr.linkCount → i.view.nlink = n.attr.linkCount ∧ i.view.xattr = n.attr.xattrIdx)
       ∧ (∀ ents, n.kind = .dir ents → ∃ des, addAllEntries ents = .ok des ∧
           st'.dirs = st.dirs ++ encListing rawCost (st.dirs.length / metaBlockSize * rawCost) (st.dirs.length % metaBlockSize) des
-          ∧ ∀ s, openDir i ((st'.dirs ++ later).drop st.dirs.length) = some s → readListing s = .ok (des.map DEnt.toEntry)) :=
-  serializeNode_readback bs st st' n later hn h
+          ∧ ∀ s, openDir i ((st'.dirs ++ later).drop st.dirs.length) = some s → readListing s = .ok (des.map DEnt.toEntry))
+      ∧ (1 ≤ n.attr.linkCount → ∃ i0 ui gi, preInode st n = some i0 ∧ i.view = withIds ui gi (wanted n.attr i0.view)
+          ∧ st'.ids[ui]? = some n.uid ∧ st'.ids[gi]? = some n.gid ∧ ∃ e, st'.ids = st.ids ++ e) := by
+  obtain ⟨i, a1, a2, a3, a4, a5, a6, a7, a8, a9⟩ := serializeNode_readback bs st st' n later hn h
+  refine ⟨i, a1, a2, a3, a4, a5, a6, a7, a8, a9, ?_⟩
+  intro hl
+  obtain ⟨i', i0, ui, gi, f1, _, _, f4, f5, _, f7, f8, f9, _⟩ := serializeNode_full bs st st' n later hn hl h
+  have : i' = i := by
+    have := f4.symm.trans a3
+    simp only [Except.ok.injEq, Prod.mk.injEq] at this
+    exact this.1
+  subst this
+  exact ⟨i0, ui, gi, f1, f5, f8, f9, f7⟩
 
--- a directory with a file entry and a hard-link entry to the same inode, written behind 100 bytes of directory stream
-example :
-    let st : TreeSt := { inodes := List.replicate 40 0, dirs := List.replicate 100 0, ids := [0] }
-    let n : NodeIn := ⟨⟨0o40755, 7, 3, 3, NONE32⟩, 1000, 0, 0, .dir [([0x61], 1, 0, 0o100644), ([0x62, 0xff], 1, 0, 0o100644)]⟩
-    ((serializeNode st n).toOption.map (fun s => (s.ids, s.dirs.length, s.inodes.length)) = some ([0, 1000], 100 + 12 + 9 + 10, 40 + 32))
-    ∧ NodeInOk 4096 st n := by
-  refine ⟨by set_option maxRecDepth 20000 in decide, ⟨by decide, by decide, by decide, by decide, by decide, by decide, ?_⟩⟩
+/-- the node of the example below: a directory with a file entry and a hard-link entry to the same inode, written
+behind 100 bytes of directory stream, owner 1000:0 with only id 0 in the table so far -/
+def exampleNodeSt : TreeSt := { inodes := List.replicate 40 0, dirs := List.replicate 100 0, ids := [0] }
+def exampleNode : NodeIn :=
+  ⟨⟨0o40755, 7, 3, 3, NONE32⟩, 1000, 0, 0, .dir [([0x61], 1, 0, 0o100644), ([0x62, 0xff], 1, 0, 0o100644)]⟩
+
+theorem exampleNode_ok : NodeInOk 4096 exampleNodeSt exampleNode := by
+  refine ⟨by decide, by decide, by decide, by decide, by decide, by decide, ?_⟩
   refine ⟨by decide, by decide, by decide, ?_⟩
   intro des h
   have h' : addAllEntries [([0x61], 1, 0, 0o100644), ([0x62, 0xff], 1, 0, 0o100644)]
@@ -550,5 +549,72 @@ example :
   rw [h'] at h
   cases h
   set_option maxRecDepth 20000 in decide
+
+-- the theorem applied: the node is accepted (new id 1000 appended), and everything above holds for the result
+example (st' : TreeSt) (h : serializeNode exampleNodeSt exampleNode = .ok st') :=
+  parse_serialize_partial 4096 exampleNodeSt st' exampleNode [] exampleNode_ok h
+example : (serializeNode exampleNodeSt exampleNode).toOption.map (fun s => (s.ids, s.dirs.length, s.inodes.length))
+    = some ([0, 1000], 100 + 12 + 9 + 10, 40 + 32) := by set_option maxRecDepth 20000 in decide
+
+open Sqfs.FsTree (Result lookup) in
+/-- **The whole tree reads back** (`sqfs_serialize_fstree` after `fstree_post_process`, metadata uncompressed,
+then `sqfs_dir_reader_get_root_inode` and recursively `open_dir`/`read`/`get_inode`).  `r` is the post-processed tree
+(`fs->inodes` in write order, link counts and inode numbers assigned, hard links resolved), `x` the xattr indices and
+the file inodes of the block processor.  If the input is `Representable` — `fs->inodes` lists every node once, the
+root included, children and hard-link targets before the directory naming them; every attribute within its C type;
+link counts ≥ 1; the two tables within the reach of a 32-bit `start_block` — and the serializer succeeds, then the walk
+from the root reference, with any amount of fuel that suffices to expand the input tree, succeeds and returns, entry by
+entry, exactly `normalise r x`: the same names in the same order under every directory; behind each name the inode with
+the node's type, permissions, modification time, inode number, link count, xattr index, device number / symlink target /
+file payload; **uid and gid resolved through the id table** (`Inode.resolve`: `ids[uid_idx]?` is `some` of the node's
+uid); a hard link as a further name of its target's inode (the same inode number; its subtree if a directory).
+By induction over `fs->inodes`: the reference stored in each directory entry is the position the child's inode was
+written at — `lookupRef`'s calloc default is never used —, the inode decodes from there (`inode_roundtrip`), the
+listing decodes from the position and with the size in the directory inode (`dir_listing_roundtrip`).
+
+**Not covered by this statement** (see `docs/design/C01-units.md`): that `fstree_post_process` establishes
+`orderOkB` (C03 `children_before_parent`/`link_targets_before_linking_dirs` prove it for C03's own numbering model;
+the unit correspondence evaluates `Representable` for every tree it generates); compressed metadata (the flat streams
+cut into blocks are `meta_stream_roundtrip`/`meta_ref_roundtrip`; their composition with this walk is exercised, not
+proved); super block and tables around the streams (`super_roundtrip`, `id_table_roundtrip`, …); the front ends. -/
+theorem parse_serialize (bs : Nat) (r : Result) (x : TreeExtra) (out : TreeOut)
+    (hrep : Representable bs r x out) (hser : serializeTree r x = .ok out) :
+    ∀ fuel v, normalise r x fuel = some v →
+      ∃ rn, readTree bs out fuel = .ok rn ∧ rn.resolve out.st.ids = v :=
+  serializeTree_readTree bs r x out hser hrep.order (fun p hp n hn => hrep.attrs p hp n hn) hrep.count hrep.inodes
+    hrep.dirs hrep.dirs2
+
+open Sqfs.FsTree in
+/-- `/a` (file, two links, xattr set 0), `/d/s` (symlink), `/d` (directory), `/h` (hard link to `/a`), owners 1000:100
+and 0:0, as `fstree_post_process` leaves them -/
+def exampleTree : Result where
+  tree := .mk [] ⟨0o40755, 0, 0, 5, 3, 0, false, false, .none⟩
+    [.mk [0x61] ⟨0o100644, 1000, 100, 7, 2, 0, false, false, .str [0x2f, 0x78]⟩ [],
+     .mk [0x64] ⟨0o40750, 1000, 0, 8, 2, 0, false, false, .none⟩
+       [.mk [0x73] ⟨0o120777, 0, 0, 9, 1, 0, false, false, .str [0x2e, 0x2e, 0x2f, 0x61]⟩ []],
+     .mk [0x68] ⟨0o120777, 0, 0, 0, 1, 0, false, true, .link [[0x61]] (some [[0x61]])⟩ []]
+  inodes := [[[0x61]], [[0x64], [0x73]], [[0x64]], []]
+  files := [[[0x61]]]
+
+def exampleExtra : TreeExtra where
+  xattrOf := fun p => if p = [[0x61]] then 0 else NONE32
+  fileInode := fun _ => .file ⟨0, 0, 0, 0, 0⟩ 96 NONE32 NONE32 5000 [4096, 904]
+
+-- `parse_serialize` applied: the serializer accepts the tree, the result is `Representable` (decided), `normalise`
+-- is defined with fuel 6, and the walk returns it
+theorem exampleTree_reads_back :
+    ∃ out v rn, serializeTree exampleTree exampleExtra = .ok out ∧ normalise exampleTree exampleExtra 6 = some v
+      ∧ readTree 4096 out 6 = .ok rn ∧ rn.resolve out.st.ids = v := by
+  have hrep : (match serializeTree exampleTree exampleExtra with
+      | .ok o => decide (Representable 4096 exampleTree exampleExtra o) | .error _ => false) = true := by
+    set_option maxRecDepth 100000 in decide
+  have hnorm : (normalise exampleTree exampleExtra 6).isSome = true := by set_option maxRecDepth 100000 in decide
+  cases hs : serializeTree exampleTree exampleExtra with
+  | error e => rw [hs] at hrep; cases hrep
+  | ok out =>
+    rw [hs] at hrep
+    obtain ⟨v, hv⟩ := Option.isSome_iff_exists.mp hnorm
+    obtain ⟨rn, h1, h2⟩ := parse_serialize 4096 exampleTree exampleExtra out (of_decide_eq_true hrep) hs 6 v hv
+    exact ⟨out, v, rn, rfl, hv, h1, h2⟩
 
 end Sqfs.C01
